@@ -4,8 +4,9 @@
 import os, json, shutil, re, sys
 # usage: seed_collect.py [round]   round 1: /tmp/seed-Cxx/OUT + /tmp/seedres  -> ids Cxx-1, Cxx-2
 #                                   round 2: /tmp/seed-Cxx/OUT2 + /tmp/seedres2 -> ids Cxx-3, Cxx-4
+#                                   round 3: /tmp/seed-Cxx/OUT3 + /tmp/seedres3 -> ids Cxx-5, Cxx-6
 rnd = int(sys.argv[1]) if len(sys.argv) > 1 else 1
-notes_file, outdir, resdir, offset = [("seed_notes.json","OUT","/tmp/seedres",0),("seed_notes2.json","OUT2","/tmp/seedres2",2)][rnd-1]
+notes_file, outdir, resdir, offset = [("seed_notes.json","OUT","/tmp/seedres",0),("seed_notes2.json","OUT2","/tmp/seedres2",2),("seed_notes3.json","OUT3","/tmp/seedres3",4)][rnd-1]
 needs = json.load(open(os.path.join(os.path.dirname(__file__), notes_file)))
 missed = needs.pop("_missed")
 rows=[]
@@ -32,11 +33,11 @@ for p in range(1,21):
             if m2.group(4): d.update({"signature":m2.group(4),"violations_counted":int(m2.group(6))})
             det.append(d)
         what,need=needs[sid]
-        meta={"id":sid,"breaks_property":pid,"origin":("independent sub-agent (general-purpose) given only the property text and its own scratch worktree of /repo under /tmp; nothing from /verif" if rnd==1 else "independent sub-agent (general-purpose, round 2) given the property text, one line each about the two ideas the round-1 seeder had used (to avoid repeats), the instruction to make the change HARD to stumble on, and its own scratch worktree of /repo under /tmp; nothing from /verif"),
+        meta={"id":sid,"breaks_property":pid,"origin":("independent sub-agent (general-purpose) given only the property text and its own scratch worktree of /repo under /tmp; nothing from /verif" if rnd==1 else "independent sub-agent (general-purpose, round %d) given the property text, one line each about the ideas the earlier seeders had used (to avoid repeats), the instruction to make the change HARD to stumble on, and its own scratch worktree of /repo under /tmp; nothing from /verif" % rnd),
               "change":what,"needs_to_manifest":need,
               "files":{"patch":"patch.diff","demonstration":"demo_test.go or demo/main.go (RUN.txt says where to place it in a checkout of the library and how to run it)","notes":"NOTES.md"},
               "confirmed_in_scratch_worktree":{"patch_applies_to":"HEAD of /repo (all fix: commits in)","go_build":m.group(1),"repository_suite_with_change":m.group(2),"demonstration_on_clean_tree":m.group(3),"demonstration_with_change":m.group(4)},
-              "round":rnd,"what_was_run":"%stools/seed_try.sh %s change%d  (in /tmp/seed-%s: git apply patch.diff, go build ./..., the repository suite, the demonstration per RUN.txt with and without the change, then VERIF_REPO=/tmp/seed-%s ./check %s quick; worktree restored afterwards)"%("SEED_OUT=OUT2 " if rnd==2 else "",pid,c,pid,pid,pid),
+              "round":rnd,"what_was_run":"%stools/seed_try.sh %s change%d  (in /tmp/seed-%s: git apply patch.diff, go build ./..., the repository suite, the demonstration per RUN.txt with and without the change, then VERIF_REPO=/tmp/seed-%s ./check %s quick; worktree restored afterwards)"%("SEED_OUT=%s " % outdir if rnd>1 else "",pid,c,pid,pid,pid),
               "checks_run":det,
               "detected_at_quick_tier": any(d["check"]==pid and d["exit"]==1 for d in det),
               "missed_by_the_first_version_of_the_check":sid in missed}
